@@ -46,7 +46,6 @@ def _recursed(ex, self_val, args, kw, st):
 
 REG['sqlparse.engine.grouping._is_delimiter'] = _PureBool
 REG['sqlparse.engine.grouping._group_matching'] = _SubtreeOnly
-REG['sqlparse.engine.grouping._group'] = _SubtreeOnly
 
 
 def make_cls_const(name):
@@ -141,3 +140,195 @@ def make_plain_group(ex, st):
 
 
 _pass_contract('group_where', loops=_W, tlist=make_plain_group)
+
+
+# --------------------------------------------------------------------------------- _group (the infix joiner)
+
+def make_pure_pred(name):
+    """a closure parameter that is a predicate on one token (or None) without effect on the tree: every call returns an
+    unknown boolean (no consistency between calls is assumed: `post` may re-type a token between two calls)"""
+    def mk(ex, st):
+        def model(ex_, self_val, args, kw, s):
+            return [(s, SBool(fresh('P_' + name, z3.BoolSort())))]
+        return Func('param.' + name, model=model)
+    return mk
+
+
+def make_post_G(ex, st):
+    """the generic closure contract G of `post` (every instantiation is checked against it at its _group call, see
+    _GroupCallsite): post(tlist, pidx, tidx, nidx) returns (f, t) with 0 <= f <= tidx <= t < len(tlist.tokens); no
+    effect on the tree except stores to the `ttype` field of tokens"""
+    def model(ex_, self_val, args, kw, s):
+        tl, pidx, tidx, nidx = args
+        f, t = fresh('from_idx', z3.IntSort()), fresh('to_idx', z3.IntSort())
+        # the only effect G allows: re-typing tokens (group_operator stores tlist[tidx].ttype); `ttype` is from now on
+        # unknown for every token (is_whitespace and the other flags are set by the constructor only)
+        s.ghost['__taint__'] = s.ghost.get('__taint__', frozenset()) | {'ttype'}
+        n = ex_.zlen(s, ex_.getattr(tl, 'tokens', s))
+        s.assume(z3.And(0 <= f, f <= ex_.z_int(tidx), ex_.z_int(tidx) <= t, t < n))
+        return [(s, (SInt(f), SInt(t)))]
+    return Func('param.post', model=model)
+
+
+def _bind_prev(ex, head):
+    """after the havoc the pair (pidx, prev_) is (None, None) or (an int, some token)"""
+    s_none = head.fork()
+    s_none.env['pidx'] = None
+    s_none.env['prev_'] = None
+    s = head
+    s.env['pidx'] = SInt(fresh('pidx', z3.IntSort()))
+    s.env['prev_'] = ex.new_token(s, {'CLS': fresh('prev_cls', ex.W.CLS), 'is_group': SBool(fresh('prev_isg', z3.BoolSort())),
+                                     'ttype': STy(fresh('prev_tt', ex.W.TT)), 'value': SStr(fresh('prev_val', z3.StringSort())),
+                                     'is_whitespace': False, 'parent': Opaque('some-parent')})
+    return [s_none, s]
+
+
+def _make_bool(name):
+    return lambda ex, st: SBool(z3.Bool('in_' + name))
+
+
+@contract('sqlparse.engine.grouping._group', case='generic closures')
+class group_generic:
+    """index bookkeeping of the infix joiner for ANY class, any predicates match / valid_prev / valid_next without effect
+    and any `post` that satisfies the closure contract G (0 <= from <= tidx <= to < len): at every group_tokens call
+    0 <= from_idx <= to_idx < len(tlist.tokens) and no exception escapes.  Invariants (DESIGN A.5; absorbed_to is the
+    position in the snapshot of the last token moved into a group): the current list is a processed prefix followed by the
+    snapshot from max(idx, absorbed_to + 1) on (J1/J2); pidx <= max(idx, absorbed_to) - offset (J3).  The tokens of the
+    snapshot in [idx, absorbed_to) are skipped explicitly, which makes their stale positions harmless (before the
+    repair this was the invariant J4 "they are whitespace", which group_assignment violated)."""
+    exec_class = HeapExec
+    params = {'tlist': make_group, 'cls': lambda ex, st: __import__('contracts.sql', fromlist=['make_cls']).make_cls(ex, st),
+              'match': make_pure_pred('match'), 'valid_prev': make_pure_pred('valid_prev'),
+              'valid_next': make_pure_pred('valid_next'), 'post': make_post_G,
+              'extend': _make_bool('extend'), 'recurse': _make_bool('recurse')}
+    callsite_asserts = {'group_tokens': ['from_idx <= tidx', 'tidx <= to_idx']}
+    ghost_init = staticmethod(lambda ex, st: st.ghost.__setitem__('WAS_RECURSED', Func('spec.WAS_RECURSED', model=_recursed)))
+    loops = {'0': {
+        'bind': _bind_prev,
+        # "later passes join neighbours also inside groups of other classes": every visited child that is a group of
+        # another class is descended into, unless it is whitespace, already absorbed, or recursion is switched off
+        'iter_post': ['WAS_RECURSED(token) if (recurse and token.is_group and not isinstance(token, cls) '
+                      'and not token.is_whitespace and idx - iter_start(tidx_offset) >= 0 '
+                      'and idx >= iter_start(absorbed_to)) else True'],
+        'inv': [
+            '-1 <= absorbed_to', 'absorbed_to < IT0.N', '0 <= tidx_offset', 'tidx_offset <= max(IT0.K, absorbed_to)',
+            'SUFFIX(tlist, max(IT0.K, absorbed_to + 1) - tidx_offset, IT0.SEQ, max(IT0.K, absorbed_to + 1))',
+            'prev_ is None or (pidx is not None and 0 <= pidx and pidx <= max(IT0.K, absorbed_to) - tidx_offset)',
+        ]}}
+    requires = []
+    ensures = []
+    raises = []
+    serves = ['C03', 'C02', 'C07', 'C09', 'C13']
+
+
+class _GroupCallsite:
+    """a call of _group.  Inside _group itself (the recursive call on a child) it is the child's-subtree-only model.  At
+    the call in one of the eleven instantiating passes it CHECKS that the closures handed over satisfy what the proof of
+    _group[generic closures] assumes about them:
+      * match / valid_prev / valid_next run without exception and without any store on an arbitrary child (valid_next
+        also on None, which is what token_next returns at the end of the list);
+      * post(tlist, pidx, tidx, nidx), called where _group calls it (0 <= pidx <= tidx < nidx < len or nidx None,
+        valid_next(next_) true), returns (f, t) with 0 <= f <= t < len  [the precondition of group_tokens]
+        and f <= tidx <= t                                               [closure contract G: what the invariants need];
+        its only store is to a `ttype` field.
+    Then the whole list of tlist is unknown (restructured by the pass)."""
+
+    @staticmethod
+    def model(ex, self_val, args, kw, st):
+        if ex.fn.endswith('grouping._group'):
+            return _SubtreeOnly.model(ex, self_val, args, kw, st)
+        from pyvc.models import bind_params, _const_default, repo_fn_node
+        from pyvc.symex import PyExc
+        from pyvc import smt
+        node = repo_fn_node('sqlparse.engine.grouping._group')
+        env = bind_params(ex, node, None, args, kw, st, lambda d: _const_default(ex, d, None))
+        tl = env['tlist']
+        n_call = st.ghost.get('__ngroupcalls__', 0)
+        st.ghost['__ngroupcalls__'] = n_call + 1
+        tag = '%s/call:_group#%d' % (ex.fn, n_call)
+        lst = ex.getattr(tl, 'tokens', st)
+
+        def arbitrary_child(s, name):
+            k = fresh(name, z3.IntSort())
+            s.assume(z3.And(k >= 0, k < ex.zlen(s, lst)))
+            return k, ex.elem_at(s, lst, k)
+
+        def run_pred(pname, s, arg, what):
+            """call a predicate closure; an exception is a failed obligation; returns [(state, truth)]"""
+            out = []
+            try:
+                for s2, v in ex.call(env[pname], [arg], {}, s):
+                    out.append((s2, ex.truth(v, s2)))
+                ex.goal('%s.%s total on %s' % (tag, pname, what), s, True, {})
+            except PyExc as e:
+                ex.goal('%s.%s total on %s' % (tag, pname, what), s, False, {'exception': e.cls_name, 'msg': str(e.msg)[:80]})
+            return out
+
+        saved_sites = getattr(ex.contract, 'sites', None)
+        ex.contract.sites = {'store:ttype': [], '__closed__': True}
+        try:
+            base = st.fork()
+            if not smt.feasible(list(base.pc) + [ex.zlen(base, lst) >= 1]):
+                raise OutsideSubset('_group call on a provably empty list')
+            base.assume(ex.zlen(base, lst) >= 1)
+            for pname in ('match', 'valid_prev', 'valid_next'):
+                s0 = base.fork()
+                for s1, e in arbitrary_child(s0, 'k_' + pname)[1]:
+                    run_pred(pname, s1, e, 'an arbitrary child')
+            run_pred('valid_next', base.fork(), None, 'None')
+            # post, in the states in which _group calls it
+            for with_next in (True, False):
+                s0 = base.fork()
+                pidx, tidx = fresh('g_pidx', z3.IntSort()), fresh('g_tidx', z3.IntSort())
+                n = ex.zlen(s0, lst)
+                s0.assume(z3.And(0 <= pidx, pidx <= tidx, tidx < n))
+                if with_next:
+                    nidx = fresh('g_nidx', z3.IntSort())
+                    s0.assume(z3.And(tidx < nidx, nidx < n))
+                    starts = [(s1, SInt(nidx), e) for s1, e in ex.elem_at(s0, lst, nidx)]
+                else:
+                    starts = [(s0, None, None)]
+                for s1, zn, next_ in starts:
+                    if not smt.feasible(s1.pc):
+                        continue
+                    for s2, ok in run_pred('valid_next', s1, next_, 'the next token'):
+                        s2.assume(z3.BoolVal(ok) if isinstance(ok, bool) else ok)
+                        if not smt.feasible(s2.pc):
+                            continue
+                        try:
+                            res = ex.call(env['post'], [tl, SInt(pidx), SInt(tidx), zn], {}, s2)
+                        except PyExc as e:
+                            ex.goal('%s.post raises nothing' % tag, s2, False, {'exception': e.cls_name, 'msg': str(e.msg)[:80]})
+                            continue
+                        for s3, r in res:
+                            if not (isinstance(r, tuple) and len(r) == 2):
+                                raise OutsideSubset('post returns %r' % (r,))
+                            f, t = r
+                            if f is None or t is None:
+                                ex.goal('%s.post returns integer positions' % tag, s3, False, {'result': repr(r)})
+                                continue
+                            zf, zt = ex.z_int(f), ex.z_int(t)
+                            n3 = ex.zlen(s3, lst)
+                            ex.goal('%s.post: 0 <= from_idx <= to_idx < len(tlist.tokens)' % tag, s3,
+                                    z3.And(0 <= zf, zf <= zt, zt < n3), {'hard': True})
+                            ex.goal('%s.post satisfies the closure contract G (from_idx <= tidx <= to_idx)' % tag,
+                                    s3, z3.And(zf <= tidx, tidx <= zt), {'closure_contract': 'G'})
+        finally:
+            if saved_sites is None:
+                try:
+                    del ex.contract.sites
+                except AttributeError:
+                    pass
+            else:
+                ex.contract.sites = saved_sites
+        ex.havoc_list_ext(st, lst.lid)
+        st.ghost['__taint__'] = st.ghost.get('__taint__', frozenset()) | {'ttype', 'value', 'parent', '#children'}
+        return [(st, None)]
+
+
+REG['sqlparse.engine.grouping._group'] = _GroupCallsite
+
+GROUP_INSTANCES = ['group_typecasts', 'group_tzcasts', 'group_typed_literal', 'group_period', 'group_as', 'group_assignment',
+                   'group_comparison', 'group_arrays', 'group_operator', 'group_identifier_list']
+for _n in GROUP_INSTANCES:
+    _pass_contract(_n, case='closures')
